@@ -34,7 +34,7 @@ RULE = ("One case = one whole event history applied to a fresh FSM (kinds fsm / 
         "configurations, by every pair of events from a 22-event alphabet; all sequences of length <= 3 (thorough: 4) "
         "from Initial; random weighted walks of length 60 (thorough 80). The Identifiers of originated packets (start value and policy) are the "
         "implementation's choice: read from its output and checked for admissibility. Compared exactly after every event: state, "
-        "restartCount, timer armed, lastReqID, id, failCount, and the list of sends (code, id, payload class) and "
+        "restartCount, timer armed, lastReqID, failCount (the internal Identifier counter f.id is NOT compared), and the list of sends (code, id, payload class) and "
         "layer callbacks, the CONTENT of every Configure-Request sent (predicted from the model of the real handlers' "
         "BuildConfReq over the handler-call log) and every call the FSM makes into the option handler "
         "(ProcessConfReq/Ack/Nak/Rej with its options). Configure-Ack/Nak/Reject carry options the real handlers react "
@@ -328,7 +328,7 @@ def steps(line):
         if len(p) != 3:
             return None
         f = p[0].split("/")
-        if len(f) != 6:
+        if len(f) != 5:
             return None
         try:
             out.append(tuple(int(x) for x in f) + ([] if p[1] == "-" else p[1].split(","),
@@ -355,7 +355,7 @@ def case_ops(case):
     return ops
 
 
-INIT = (0, 0, 0, 0, 0, 0, [], [])
+INIT = (0, 0, 0, 0, 0, [], [])
 
 
 def rfc_class(op, pre, kind="fsm"):
@@ -453,9 +453,9 @@ def classify(case, impl, model):
         return "P", txt + " (real restart timer: a fire that came after the timer was stopped/restarted was not ignored, or a pending timer did not fire)"
     if "||" in op:
         return "P", txt + " (events are not atomic: the second goroutine's event ran inside the first one's callback)"
-    if a is None or b is None or a[0] != b[0] or a[6] != b[6]:
+    if a is None or b is None or a[0] != b[0] or a[5] != b[5]:
         return "P", txt
-    if a[7] != b[7]:
+    if a[6] != b[6]:
         return "P", txt + (" (the option handler was called differently: option state, hence the content of later "
                            "Configure-Requests, departs from what RFC 1661 prescribes)")
     if a[3] != b[3]:
@@ -470,7 +470,7 @@ def nontrivial(case, out):
     if (case.split() or [""])[0] == "disp":
         return any(t.split(":")[1] != "-" for t in out.split() if t.count(":") == 2)
     s = steps(out)
-    return bool(s) and any(x[6] for x in s)
+    return bool(s) and any(x[5] for x in s)
 
 
 def shrink(case):
@@ -539,8 +539,8 @@ def distribution(cases, impl):
             d["late_cases"] = d.get("late_cases", 0) + 1
             d["late_parked"] = d.get("late_parked", 0) + ("ov=1" in o)
         for x in s:
-            d["handler_calls"] += len(x[7])
-            for a in x[6]:
+            d["handler_calls"] += len(x[6])
+            for a in x[5]:
                 if a.startswith("scr."):
                     d["configure_requests_compared"] += 1
                     contents.add((t[0], a.split(".")[2]))
